@@ -20,6 +20,9 @@ type EscrowMonitor struct {
 	// committed price per escrow account at the previous block boundary
 	prev      *StakeSnap
 	epochSeen uint64
+	// intervalSeen is the debonding interval after the previous block.
+	intervalSeen  uint64
+	intervalKnown bool
 
 	// Stats
 	TxChecked, PairsChecked, Reclaims, Payments, Slashes, SlashFractionChecks, PriceDrops int
@@ -253,6 +256,13 @@ func (m *EscrowMonitor) OnBlock(h *History, b *Block, txs []*GenTx, ref *BlockRe
 		case ev.Escrow.DebondingStart != nil:
 			ds := ev.Escrow.DebondingStart
 			m.Reclaims++
+			// The debonding end epoch is the epoch of the block executing the reclaim plus the
+			// debonding interval in force (before or after this block's parameter changes).
+			preI, postI := m.debondInterval(h), uint64(h.View.StakingP.DebondingInterval)
+			if e := uint64(ds.DebondEndTime); e != epoch+preI && e != epoch+postI {
+				m.Rep.Violation("c15/l2/debonding-end-epoch-wrong", fmt.Sprintf("reclaim by %s from %s executed in epoch %d with debonding interval %d records debonding end epoch %d", ds.Owner, ds.Escrow, epoch, preI, e),
+					map[string]any{"height": b.Height, "params": h.Sc.P, "interval_before_block": preI, "interval_after_block": postI})
+			}
 			k := pkey(ds.Owner, ds.Escrow, uint64(ds.DebondEndTime))
 			if p := m.pending[k]; p != nil {
 				p.Shares.Add(p.Shares, ds.DebondingShares.ToBigInt())
@@ -312,9 +322,26 @@ func (m *EscrowMonitor) OnBlock(h *History, b *Block, txs []*GenTx, ref *BlockRe
 			}
 		}
 	}
+	// "Paid out exactly once": a debonding delegation that was removed without its shares being
+	// redeemed (or redeemed without being removed) leaves the pool's share total out of step
+	// with the delegations that own it.
+	for _, pr := range snap.CheckLedger(nil) {
+		if pr.Kind == "debonding-shares-mismatch" || pr.Kind == "active-shares-mismatch" {
+			m.Rep.Violation("c15/l2/"+pr.Kind, pr.Detail, map[string]any{"height": b.Height, "params": h.Sc.P})
+		}
+	}
 	_ = slashed
 	m.prev = snap
 	m.epochSeen = epoch
+	m.intervalSeen, m.intervalKnown = uint64(h.View.StakingP.DebondingInterval), true
+}
+
+// debondInterval returns the debonding interval in force before the current block.
+func (m *EscrowMonitor) debondInterval(h *History) uint64 {
+	if m.intervalKnown {
+		return m.intervalSeen
+	}
+	return uint64(h.Sc.Doc.Staking.Parameters.DebondingInterval)
 }
 
 func (m *EscrowMonitor) lastEpochSeen(h *History) uint64 { return m.epochSeen }
